@@ -30,25 +30,32 @@ SPEC = dict(lean_modules=MODULES, shards=8, rule=RULE)
 
 META = dict(
     technique=("Lean 4 invariant proof over an executable transition system of mutexRuntime.Eval (ghost holder of the "
-               "sync.Mutex, pointwise invariants), tied to /repo by (1) source facts re-extracted with go/ast on every run and "
-               "decided in Lean (table accesses only under MutexesMutex, named mutex's Unlock deferred unconditionally, "
-               "NewThreadID one critical section); the ordered skeleton of mutexRuntime.Eval is recorded and a change of it "
-               "amplifies the search, and (2) generated concurrent ECAL programs "
-               "run on the real interpreter whose enter/exit traces are replayed on the model"),
-    level_text=("Proof, for any number of threads (ids > 0, distinct), names, nesting depth, programs and schedules: "
-                "mutual_exclusion / inside_is_owner (one holder per name; every thread inside is the registered owner with "
-                "exactly one acquiring frame), different_names_independent + other_names_untouched (enabledness and effect "
-                "of an event involve only its own name), reentrant_no_block + decision_matches_ownership, "
-                "released_on_every_exit + release_steps_never_block (all five outcomes), later_entrant_gets_in + "
-                "locked_has_live_holder, no_lost_update (counter = completed increments with a non-atomic read/write); "
-                "ids_distinct (thread ids handed out by the generator protocol are > 0 and pairwise distinct in every "
-                "interleaving; load-then-add and reset counterexamples), with the shape of NewThreadID and the fact that the id "
-                "counter is only ever incremented in package engine/pool (id_counter_monotone) re-extracted on every run."),
-    level_note=("Trusted: Lean kernel + propext/Classical.choice/Quot.sound; that each MutexesMutex-guarded section is atomic "
-                "(the skeleton shows every table access bracketed by that one lock) and that sync.Mutex is a correct lock; "
-                "the model of the id generator (Ecal.ThreadId) and its go/ast shape extractor; the body of a block is "
-                "unconstrained in the model, fairness/termination of bodies is not claimed; the go/ast skeleton extractor "
-                "and the correspondence harness."),
+               "sync.Mutex, pointwise invariants), tied to /repo by (1) three-valued source facts re-extracted with go/ast on "
+               "every run and decided in Lean (every use of the two tables and their aliases under MutexesMutex, in all "
+               "packages; the named mutex's Unlock deferred with nothing fallible before the defer; order Lock<setOwner, "
+               "reset<Unlock, create-only-when-absent, blocking operations outside table sections; NewThreadID one critical "
+               "section, id counter only incremented and starting >= 1) with Lean negative witnesses on variant protocols; the "
+               "ordered skeleton is recorded and a change / an unknown fact amplifies the search, and (2) generated concurrent "
+               "ECAL programs run on the real interpreter: occupancy, counters, completion, real end state (owners 0, every "
+               "mutex TryLock-able), and the enter/exit trace replayed on the model"),
+    level_text=("Proof, for any number of threads (a thread = its id > 0), names, nesting depth, programs and schedules: "
+                "mutual_exclusion / inside_is_owner, different_names_independent + other_names_untouched, reentrant_no_block + "
+                "decision_matches_ownership, released_on_every_exit + unlock_frees_name + release_steps_never_block (the model's "
+                "release runs on every outcome BECAUSE it is deferred: that is the fact unlock_deferred_on_acquiring_path plus "
+                "generated exits by normal end, caught and uncaught error, return, break, continue and Go panic; "
+                "without_defer_error_leaks_lock is the counterexample), later_entrant_gets_in (safety) + waiter_progress / "
+                "single_name_no_deadlock (progress: a wait cycle needs two names in conflicting program order), "
+                "locked_has_live_holder, no_lost_update, ids_distinct (+ load-then-add / reset counterexamples, "
+                "id_counter_monotone, id_counter_starts_positive)."),
+    level_note=("Trusted: Lean kernel + propext/Classical.choice/Quot.sound; sync.Mutex is a correct lock; each MutexesMutex "
+                "section is one atomic, non-blocking event (supported by the facts table_uses_under_table_lock and "
+                "protocol_order_facts, which are syntactic go/ast analyses with `unknown` where aliases escape — today one "
+                "escape: the debugger's LockState, see facts_unknown); a thread IS its tid (two goroutines evaluating with one "
+                "tid re-enter each other's blocks — only tested: seeded sink-closure case) and there is ONE pool per provider "
+                "(erp.Processor is an exported field; ids taken before it is replaced may collide with the new pool's — "
+                "mode I variant x observes this, it is not excluded); the trace replay expands an observed enter/exit by the "
+                "model's own state (which branch Go took and when it released is seen only through occupancy, counters and the "
+                "end state); bodies are unconstrained in the model; fairness of the Go scheduler is not modelled."),
 )
 
 
@@ -79,6 +86,25 @@ def read_skeletons():
             else:
                 k += 1
         out[name] = items
+    return out
+
+
+# observations the extractor classifies as `unknown` on the tree as it is, each with the reason why this is
+# expected; any OTHER unknown observation makes the run search harder (amplified correspondence)
+EXPECTED_UNKNOWN = {
+    "interpreter/ecalDebugger.LockState:mutexeOwners used as a value":
+        "the debugger returns its alias of the live owner table (JSON-encoded by the caller without MutexesMutex): "
+        "genuine race, repaired by fixes/C16-lockstate-copies-map.patch (property C16); once that is in /repo the "
+        "observation becomes `guarded` and table_uses_under_table_lock can be tightened to `= some true`",
+}
+
+
+def unknown_facts():
+    import re
+    src = open(GEN).read() if os.path.exists(GEN) else ""
+    out = [m.group(1) for m in re.finditer(r'\("((?:[^"\\\\]|\\\\.)*)", "unknown"\)', src)]
+    if "def idCounterInit : Option Nat := none" in src:
+        out.append("idCounterInit")
     return out
 
 
@@ -161,7 +187,8 @@ def run(ctx):
     cov["theorems"] = lres["theorems"]
     cov["axioms_used"] = lres["axioms"]
     cov["trusted_base"] = checklib.BASE_TRUSTED + [
-        "sync.Mutex is a lock; every section guarded by erp.MutexesMutex is atomic (modelled as one event)",
+        "sync.Mutex is a lock; every section guarded by erp.MutexesMutex is atomic and non-blocking (modelled as one event)",
+        "a thread is its tid; one thread pool per runtime provider (erp.Processor not replaced while ids are in use)",
         "thread ids > 0 and distinct: proved for the generator protocol (ids_distinct), tied to ThreadPool.NewThreadID by "
         "the extracted access shape (newThreadID_is_one_critical_section) and by the id-hammer cases (mode I)",
         "go/ast skeleton extractor (go/cmd/harness/c12tool.go): identifiers normalised by role, table section sorted",
@@ -202,10 +229,16 @@ def run(ctx):
     if changed:
         ctx.notes.append("ordered synchronisation skeleton differs from the one the model was written against "
                          "(not a failure by itself): " + ", ".join(changed))
+    unk = unknown_facts()
+    unexpected = [u for u in unk if u not in EXPECTED_UNKNOWN]
+    cov["facts_unknown"] = {u: EXPECTED_UNKNOWN.get(u, "NOT EXPECTED: the extractor cannot classify this on the tree under test") for u in unk}
+    if unexpected:
+        ctx.notes.append("source facts with verdict unknown (not a failure by itself): " + "; ".join(unexpected))
     found = bool(r["bad"])
-    if (changed or proof_broken) and not found and not thorough:
+    if (changed or proof_broken or unexpected) and not found and not thorough:
         # restructured code or a broken fact and the quick cases agree: search harder in this run
-        ctx.log("skeleton changed" if changed else "obligation broken", "- running the amplified correspondence")
+        ctx.log("skeleton changed" if changed else ("obligation broken" if proof_broken else "fact unknown"),
+                "- running the amplified correspondence")
         r2 = correspondence(ctx, binp, "amplified", 900)
         cov["amplified_evaluations"] = len(r2["cases"])
         cov["amplified_traces_validated"] = r2["validated"]
